@@ -131,8 +131,8 @@ package service
 //@   requires len(firstBytes) == bytesForKeyFinding && l != nil
 //@   requires forall i int :: 0 <= i && i < len(ciphers) ==> validElem(ciphers[i])
 //@   loop 1 invariant forall j int :: 0 <= j && j <= rangeindex ==> !aeadMatch(ciphers[j], firstBytes)
-//@   ensures[C01,complete] result.0 == nil ==> (forall i int :: 0 <= i && i < len(ciphers) ==> !aeadMatch(ciphers[i], firstBytes))
-//@   ensures[C01,sound] result.0 != nil ==> aeadMatch(result.1, firstBytes) && (exists i int :: 0 <= i && i < len(ciphers) && ciphers[i] == result.1 \
+//@   ensures[C01,C09,complete] result.0 == nil ==> (forall i int :: 0 <= i && i < len(ciphers) ==> !aeadMatch(ciphers[i], firstBytes))
+//@   ensures[C01,C09,sound] result.0 != nil ==> aeadMatch(result.1, firstBytes) && (exists i int :: 0 <= i && i < len(ciphers) && ciphers[i] == result.1 \
 //@        && (forall j int :: 0 <= j && j < i ==> !aeadMatch(ciphers[j], firstBytes)))
 //@   ensures result.0 != nil ==> validEntry(result.0) && validElem(result.1) && result.0 == as(result.1.Value, "*service.CipherEntry")
 //@   ensures result.0 == nil ==> result.1 == nil
@@ -488,12 +488,27 @@ package service
 //@   params m clientAddr accessKey
 //@   ensures result != nil
 
+// Trial decryption of a datagram is sound and complete over the snapshot, like findEntry for streams:
+// an error iff no key of the snapshot opens the datagram; otherwise the first key (in snapshot order)
+// that does, with that key's own ID.
+//@ pred aeadMatchPkt(e *list.Element, pkt []byte) := uf_aeadOK(as(e.Value, "*service.CipherEntry").CryptoKey, pkt.$arr, pkt.$off, len(pkt))
 //@ func findAccessKeyUDP
-//@   props C03 C18
+//@   props C03 C09 C18
 //@   params clientIP dst src cipherList l
 //@   requires cipherList != nil && l != nil && dst != nil && dst.$arr != src.$arr
+//@   loop 1 invariant forall j int :: 0 <= j && j <= rangeindex ==> !aeadMatchPkt(snapshot[j], src)
 //@   ensures result.3 == nil ==> result.2 != nil && len(result.0) >= 0
 //@   ensures result.3 == nil ==> result.0.$arr == dst.$arr
+//@   trace[C03,C09,complete] holds result.3 != nil ==> (forall i int :: 0 <= i && i < len(evres("service.(*cipherList).SnapshotForClientIP", 0)) ==> !aeadMatchPkt(evres("service.(*cipherList).SnapshotForClientIP", 0)[i], src))
+//@   trace[C03,C09,sound-and-attributed] holds result.3 == nil ==> (exists i int :: 0 <= i && i < len(evres("service.(*cipherList).SnapshotForClientIP", 0)) \
+//@        && aeadMatchPkt(evres("service.(*cipherList).SnapshotForClientIP", 0)[i], src) \
+//@        && result.1 == as(evres("service.(*cipherList).SnapshotForClientIP", 0)[i].Value, "*service.CipherEntry").ID \
+//@        && result.2 == as(evres("service.(*cipherList).SnapshotForClientIP", 0)[i].Value, "*service.CipherEntry").CryptoKey \
+//@        && (forall j int :: 0 <= j && j < i ==> !aeadMatchPkt(evres("service.(*cipherList).SnapshotForClientIP", 0)[j], src)))
+//@   trace[C03,decrypts-this-datagram-into-the-given-buffer] each shadowsocks.Unpack satisfies sameslice($arg1, src) && sameslice($arg0, dst)
+//@   trace[C03,plaintext-is-the-decryption] each shadowsocks.Unpack satisfies $res1 == nil ==> sameslice(result.0, $res0)
+//@   trace[C01,mark-used-only-on-success] never service.(*cipherList).MarkUsedByClientIP when result.3 != nil
+//@   trace[C03,snapshot-for-this-client] each service.(*cipherList).SnapshotForClientIP satisfies $arg1 == clientIP
 
 //@ func NewPacketHandler
 //@   props C05 C18
